@@ -1,2 +1,157 @@
+/-
+  Civil → instant lookups on a table (C02, C03, C06): what the answer of `MakeTime` means in terms
+  of the instants that display the civil second, and the order-preservation of `convert`.
+  The model analysis is in `TcMake` (`Tc.makeTime_outcome`), the arithmetic of stretches in `TcSeg`.
+-/
 import Cctz.Model.Tz
 import Cctz.Spec.TableSem
+import Cctz.Spec.TableTame
+import Cctz.Proofs.TcSeg
+import Cctz.Proofs.TcSearch
+import Cctz.Proofs.TcMake
+import Cctz.Proofs.TableLookup
+import Cctz.Proofs.TlShift
+
+namespace Cctz.Tc
+open Cctz Cctz.Tz Cctz.Spec
+
+/-! ### clamp64 -/
+
+theorem clamp64_of_in {t : Int} (h : inI64 t) : clamp64 t = t := by
+  unfold inI64 at h; unfold clamp64
+  rw [if_neg (by omega), if_neg (by omega)]
+
+theorem clamp64_mono {a b : Int} (h : a ≤ b) : clamp64 a ≤ clamp64 b := by
+  unfold clamp64 i64min i64max
+  split <;> split <;> (try split) <;> (try split) <;> omega
+
+/-! ### the UNIQUE value -/
+
+theorem uval_cases (z : Zone) (k : Nat) (x : Int) :
+    uval z k x = x - offBefore z k ∨ (x - offBefore z k < i64min ∧ uval z k x = i64min) ∨
+      (i64max < x - offBefore z k ∧ uval z k x = i64max) := by
+  unfold uval
+  by_cases k0 : k = 0
+  · subst k0; simp only [if_true]; split <;> simp_all
+  · simp only [k0, if_false]; split
+    · split <;> simp_all
+    · simp
+
+theorem uval_eq_clamp {z : Zone} (wf : TableWF z) (tir : TimesInRange z) {k : Nat} {x : Int}
+    (hk : k ≤ z.transitions.size)
+    (h1 : 0 < k → timeOf z (k - 1) + offOf z (k - 1) ≤ x)
+    (h2 : k < z.transitions.size → x ≤ timeOf z k + offBefore z k - 1) :
+    uval z k x = clamp64 (x - offBefore z k) := by
+  have hn := wf.nonempty
+  unfold uval clamp64
+  by_cases k0 : k = 0
+  · subst k0
+    have := h2 hn
+    have := (tir 0 hn).2
+    simp only [if_true]
+    split
+    · rfl
+    · rw [if_neg (by omega)]
+  · simp only [k0, if_false]
+    have hs := offBefore_succ z (k - 1)
+    rw [show k - 1 + 1 = k by omega] at hs
+    have := h1 (by omega)
+    have := (tir (k - 1) (by omega)).1
+    by_cases kn : k = z.transitions.size
+    · subst kn
+      rw [if_pos rfl]
+      rw [if_neg (show ¬ (x - offBefore z z.transitions.size < i64min) by omega)]
+    · simp only [kn, if_false]
+      have := h2 (by omega)
+      have := (tir k (by omega)).2
+      rw [if_neg (by omega), if_neg (by omega)]
+
+/-! ### the instant `convert` returns, before saturation: the first instant displaying `x` or later -/
+
+theorem disp_lt_of_lt {z : Zone} (wf : TableWF z) (sep : Separated z) {k : Nat} {x v : Int}
+    (hk : k ≤ z.transitions.size) (hvk : k < z.transitions.size → v ≤ timeOf z k)
+    (hx : 0 < k → timeOf z (k - 1) + offBefore z (k - 1) - 1 < x)
+    (hvx : v + offBefore z k ≤ x) : ∀ u, u < v → u + offAt z u < x := by
+  intro u hu
+  have hs := inSeg_segIndex wf u
+  rw [offAt_eq]
+  generalize segIndex z u = j at hs
+  have hr := inSeg_range hs rfl
+  obtain ⟨hj, hj1, hj2⟩ := hs
+  by_cases hjk : j = k
+  · subst hjk; omega
+  · by_cases hlt : j < k
+    · have := hr.2 (by omega)
+      have := sep_p_mono sep (show j ≤ k - 1 by omega) (by omega)
+      have := hx (by omega)
+      omega
+    · exfalso
+      have := hvk (by omega)
+      have := hj1 (by omega)
+      have := timeOf_mono wf (show k ≤ j - 1 by omega) (by omega)
+      omega
+
+/-- the value of `convert` (`trans` across a gap, `pre` otherwise) -/
+def convOf (r : CivilLookup) : Int := if r.kind = .skipped then r.trans else r.pre
+
+theorem convOf_unique (v : Int) : convOf (mkUnique v) = v := rfl
+theorem convOf_skipped (a b c : Int) : convOf ⟨.skipped, a, b, c⟩ = b := rfl
+theorem convOf_repeated (a b c : Int) : convOf ⟨.repeated, a, b, c⟩ = a := rfl
+
+theorem outcome_conv {z : Zone} (wf : TableWF z) (sep : Separated z) (tir : TimesInRange z)
+    (fer : FirstEntryRoom z) {x : Int} {r : CivilLookup} (ho : Outcome z x r) :
+    ∃ v, convOf r = clamp64 v ∧ x ≤ v + offAt z v ∧ ∀ u, u < v → u + offAt z u < x := by
+  cases ho with
+  | unique k hk h1 h2 hr =>
+    refine ⟨x - offBefore z k, ?_, ?_, ?_⟩
+    · subst hr
+      rw [convOf_unique]
+      exact uval_eq_clamp wf tir hk (fun h => (h1 h).1) (fun h => (h2 h).2)
+    · have := (unique_shows wf sep hk h1 h2 (x - offBefore z k)).2 rfl
+      unfold shows at this; omega
+    · exact disp_lt_of_lt wf sep hk (fun h => by have := (h2 h).2; omega) (fun h => (h1 h).2) (by omega)
+  | skipped k hk h1 h2 hr =>
+    refine ⟨timeOf z k, ?_, ?_, ?_⟩
+    · subst hr
+      rw [convOf_skipped]
+      exact (clamp64_of_in (tir k hk)).symm
+    · have hseg : InSeg z (k + 1) (timeOf z k) :=
+        ⟨by omega, fun _ => by simp, fun h => timeOf_lt wf (by omega) h⟩
+      rw [offAt_eq, segIndex_of_inSeg wf hseg, offBefore_succ]
+      omega
+    · refine disp_lt_of_lt wf sep (Nat.le_of_lt hk) (fun _ => Int.le_refl _) ?_ (by omega)
+      intro h0
+      have := sep_p_mono sep (show k - 1 ≤ k by omega) hk
+      omega
+  | repeated i hi h1 h2 hr =>
+    refine ⟨x - offBefore z i, ?_, ?_, ?_⟩
+    · subst hr
+      rw [convOf_repeated]
+      refine (clamp64_of_in ⟨?_, ?_⟩).symm
+      · by_cases i0 : i = 0
+        · subst i0; unfold FirstEntryRoom at fer; omega
+        · have := (sep (i - 1) (by omega)).1
+          have hs := offBefore_succ z (i - 1)
+          rw [show i - 1 + 1 = i by omega] at this hs
+          have := (tir (i - 1) (by omega)).1
+          omega
+      · have := (tir i hi).2; omega
+    · have := (repeated_shows wf sep hi h1 h2 (x - offBefore z i)).2 (Or.inl rfl)
+      unfold shows at this; omega
+    · refine disp_lt_of_lt wf sep (Nat.le_of_lt hi) (fun _ => by omega) ?_ (by omega)
+      intro h0
+      have := sep_pc sep (show i - 1 < i by omega) hi
+      omega
+
+theorem convert_val (z : Zone) (h : Nat) (cs : Fields) :
+    (convert z h cs).val.1 = convOf (makeTime z h cs).val.1 := rfl
+
+/-- the civil second `BreakTime` reports (table path) is displayed by `t` -/
+theorem breakTime_shows (z : Zone) (h : Nat) (t : Int) (wf : TableWF z) (cols : CivilCols z)
+    (hc : z.extended = false ∨ t < timeOf z (z.transitions.size - 1)) :
+    Valid (breakTime z h t).val.1.cs ∧ shows z t (secNum (breakTime z h t).val.1.cs) := by
+  rw [Tl.breakTime_noshift z h t hc]
+  have := Tl.breakTimeCore_spec z wf cols h t
+  exact ⟨this.1, this.2.1.symm⟩
+
+end Cctz.Tc
